@@ -42,7 +42,8 @@ def strategy(tier):
             route = draw(st.sampled_from(["lib", "cli"]))
         t = draw(trees.tree(P, max_files=8 if tier == "quick" else 20, cli_safe=(route == "cli")))
         return {"tree": t, "P": P, "creator": creator, "route": route,
-                "progress": draw(st.sampled_from([0, 0, 1, 2])), "again": draw(common.second_act()), "warm": draw(common.warmup())}
+                "progress": draw(st.sampled_from([0, 0, 1, 2])), "again": draw(common.second_act()), "warm": draw(common.warmup()),
+                "spelling": draw(st.sampled_from(["abs", "abs", "abs", "rel", "dot-rel", "dot"]))}
     return case()
 
 
@@ -63,6 +64,14 @@ def grid(tier):
 
 
 def run_case(case):
+    old_cwd = os.getcwd()
+    try:
+        return _run_case(case)
+    finally:
+        os.chdir(old_cwd)
+
+
+def _run_case(case):
     tree = case["tree"]
     P = case["P"]
     target.reset()
@@ -70,11 +79,21 @@ def run_case(case):
         root = common.make(scr, tree)
         out = os.path.join(scr, "out", "o.torrent")
         warmed = common.apply_warmup(scr, case.get("warm"))
+        sp = case.get("spelling", "abs")
+        if sp in ("rel", "dot-rel"):
+            # the content root spelled relative to the working directory (its parent)
+            os.chdir(os.path.dirname(root))
+            root = os.path.basename(root) if sp == "rel" else "./" + os.path.basename(root)
+        elif sp == "dot" and not tree["single"]:
+            os.chdir(root)
+            root = "."
         try:
             m = common.create(case["creator"], case["route"], root, out, P, case["progress"])
         except Exception as e:
             return Outcome(Violation("C02:exception:%s" % type(e).__name__, "create raised %r" % (e,)), True, ["exception"])
         first = judge(m, tree, P)
+        if sp != "abs":
+            first.classes = tuple(first.classes) + ("root-spelled-" + sp,)
         if warmed:
             first.classes = tuple(first.classes) + ("after-warm-up", "after-warm-up-other-P" if case["warm"]["P"] != P else "after-warm-up-same-P")
             if first.violation is not None:
